@@ -400,6 +400,18 @@ R('cat', 2, [lambda e, w: e.cat(w.s[0], w.s[1]),
                                 header=w.arg(['c', 'a', 'zz'])),
              lambda e, w: e.cat(w.s[0], w.s[0])],
   'transform.basics', stream=MAP0)
+# (the second and third table of a concatenation stream too: the first one
+# is cut short so that a consumer of a few rows gets there)
+R('cat-after-short', 2,
+  [lambda e, w: e.cat(e.head(w.s[0], 1), w.s[1]),
+   lambda e, w: e.cat(e.head(w.s[0], 1),
+                      e.setheader(w.s[1], ['p', 'q', 'r', 's', 't']),
+                      header=w.arg(['a', 'b', 'c'])),
+   lambda e, w: e.cat(e.head(w.s[0], 2),
+                      e.setheader(w.s[1], ['p', 'q', 'r', 's', 't']),
+                      e.head(w.s[0], 1), missing='M'),
+   lambda e, w: e.stack(e.head(w.s[0], 1), w.s[1], missing='M')],
+  'transform.basics', stream=('map', 2))
 R('stack', 2, [lambda e, w: e.stack(w.s[0], w.s[1]),
                lambda e, w: e.stack(w.s[0], w.s[1], missing='M',
                                     trim=False, pad=False),
